@@ -43,7 +43,8 @@ LEVEL_TEXT = ("Exploration with an exhaustive pocket: every parent table with n 
               " Frames with permuted / foreign index labels; a rejected has_cyclic call (1-based ids) precedes a third of the calls."
               " Regular table families (rings of every length in both orientations, rings with tails, two rings, tip-first chains); checkers on int32 arrays with the inputs compared afterwards; table-level repairs on forests of 2 .. 300 roots with arbitrary ids."
               " Several union-find structures driven in turns with has_cyclic called in between."
-              " Tables shifted beyond 32-bit ids; the same table under custom column names next to decoy default-named columns; the older checker names and the tree-level front end.")
+              " Tables shifted beyond 32-bit ids; the same table under custom column names next to decoy default-named columns; the older checker names and the tree-level front end."
+              " Component labellings overwritten by the caller before the checkers run again.")
 LEVEL_NOTE = ("Tables have parents drawn from the ids present or -1; has_cyclic is driven with ids "
               "that are a permutation of 0..n-1 (it indexes its union-find by id). Whether "
               "'nearest' picks the geometrically nearest node is recorded, not decided. Divergence is "
